@@ -24,6 +24,7 @@ def _solver(timeout_ms, seed=0):
 def to_cvc5_text(smt2):
     t = smt2
     t = t.replace('bv2int', 'bv2nat').replace('seq.nth_i', 'seq.nth').replace('seq.nth_u', 'seq.nth')
+    t = t.replace('int_to_bv', 'int2bv').replace('ubv_to_int', 'bv2nat')
     t = re.sub(r'\(set-info [^)]*\)\n?', '', t)
     t = re.sub(r'\(_ (comp\d+) 0\)', r'\1', t)
     return '(set-logic ALL)\n' + t
